@@ -125,6 +125,7 @@ mod state;
 /// Probes of private state for an external verification harness.
 #[cfg(feature = "zombiezen_redo_rs_verif")]
 pub mod verif {
+    pub use super::cycles::verif_hooks as cycles;
     pub use super::jobserver::verif_hooks as jobserver;
     pub use super::state::verif_hooks as state;
 }
